@@ -448,6 +448,12 @@ func (ab *dsAddrBook) storeSignedPeerRecord(p peer.ID, envelope *record.Envelope
 	}
 	pr.Lock()
 	defer pr.Unlock()
+	if len(pr.Addrs) == 0 {
+		// none of the record's addrs were retained (e.g. a non-positive ttl) and the
+		// peer has no other addrs: a signed record is only kept alongside addrs.
+		// flush would delete the datastore entry, but the cached record would keep it.
+		return nil
+	}
 	pr.CertifiedRecord = &pb.AddrBookRecord_CertifiedRecord{
 		Seq: rec.Seq,
 		Raw: envelopeBytes,
